@@ -794,3 +794,25 @@ def one_edit_bag(x, alphabet):
 
 def one_sub_bag(x, alphabet):
     return [x[:i] + a + x[i + 1:] for i in range(len(x)) for a in alphabet if a != x[i]]
+
+
+# ---- C17: power-law utilities
+def filtered(c, cmin):
+    import numpy as _np
+    a = _np.asarray(c)
+    return a[a >= cmin]
+
+
+def ln(x):
+    import numpy as _np
+    with _np.errstate(all="ignore"):
+        return _np.log(x)
+
+
+def zeta(a, q):
+    import scipy.special
+    return scipy.special.zeta(a, q)
+
+
+def is_integral(x):
+    return float(x) == int(x)
